@@ -142,3 +142,104 @@ def check_top_m(elected, remaining, scores, m, tiebreaks, what="top-m"):
                 fails.append(f"{what}: {a} and {b} have equal scores but are separated without a recorded tiebreak")
                 break
     return fails
+
+
+# ---------------------------------------------------------------------------- reference STV count
+class NeedsTiebreak(Exception):
+    """The documented count requires an order among tied candidates that was not supplied."""
+
+
+class SpecUndefined(Exception):
+    """The property text does not say what happens (e.g. more quota-reachers than seats)."""
+
+
+def stv_reference(jp, m, quota="droop", simultaneous=True, full_weight=False, choose=None):
+    """The count of C02, written from the property text.  `choose(round, kind, tied_set, allowed)`
+    supplies the implementation's recorded resolution for a genuine tie (kind 'elect'/'eliminate');
+    it must return a member of `allowed`.  Returns (threshold, rounds) where each round is
+    dict(elected=[set,...], eliminated=set, tallies={c: w}, profile={ranking: w})."""
+    cands = list(jp_candidates(jp))
+    prof = {}
+    for b in jp["ballots"]:
+        k = tuple(g[0] for g in b["r"])
+        prof[k] = prof.get(k, Fraction(0)) + Fraction(b["w"])
+    N = sum(prof.values(), Fraction(0))
+    import math
+    t = math.floor(N / (m + 1)) + 1 if quota == "droop" else math.floor(N / m)
+
+    def tally(p, cs):
+        d = {c: Fraction(0) for c in cs}
+        for r, w in p.items():
+            d[r[0]] += w
+        return d
+    init = tally(prof, cands)
+    remaining = list(cands)
+    n_elected = 0
+    rounds = []
+    rnd = 0
+    while n_elected < m:
+        rnd += 1
+        if rnd > len(cands) + 3:
+            raise SpecUndefined("count does not terminate")
+        tl = tally(prof, remaining)
+        reach = [c for c in remaining if tl[c] >= t]
+        elected, eliminated = [], set()
+        if reach:
+            if simultaneous:
+                W = list(reach)
+            else:
+                top = max(tl[c] for c in reach)
+                tied = [c for c in reach if tl[c] == top]
+                if len(tied) > 1:
+                    if choose is None:
+                        raise NeedsTiebreak("elect")
+                    W = [choose(rnd, "elect", set(tied), set(tied))]
+                else:
+                    W = tied
+            if len(W) > m - n_elected:
+                raise SpecUndefined("more candidates reach the threshold than seats remain")
+            new = {}
+            for r, w in prof.items():
+                h = r[0]
+                f = Fraction(1)
+                if h in W and not full_weight:
+                    f = (tl[h] - t) / tl[h]
+                r2 = tuple(c for c in r if c not in W)
+                if r2 and w * f > 0:
+                    new[r2] = new.get(r2, Fraction(0)) + w * f
+            by = {}
+            for c in W:
+                by.setdefault(tl[c], set()).add(c)
+            elected = [by[k] for k in sorted(by, reverse=True)]
+            prof = new
+            remaining = [c for c in remaining if c not in W]
+            n_elected += len(W)
+        elif len(remaining) == m - n_elected:
+            by = {}
+            for c in remaining:
+                by.setdefault(tl[c], set()).add(c)
+            elected = [by[k] for k in sorted(by, reverse=True)]
+            n_elected += len(remaining)
+            remaining = []
+            prof = {}
+        else:
+            low = min(tl[c] for c in remaining)
+            L = [c for c in remaining if tl[c] == low]
+            if len(L) > 1:
+                lowi = min(init[c] for c in L)
+                allowed = {c for c in L if init[c] == lowi}
+                x = choose(rnd, "eliminate", set(L), allowed) if choose else None
+                if x is None:
+                    raise NeedsTiebreak("eliminate")
+            else:
+                x = L[0]
+            eliminated = {x}
+            new = {}
+            for r, w in prof.items():
+                r2 = tuple(c for c in r if c != x)
+                if r2:
+                    new[r2] = new.get(r2, Fraction(0)) + w
+            prof = new
+            remaining = [c for c in remaining if c != x]
+        rounds.append(dict(elected=elected, eliminated=eliminated, tallies=tally(prof, remaining), profile=dict(prof)))
+    return t, rounds
